@@ -274,3 +274,23 @@ def output_scaling(eu, option_k):
     for i in range(2):
         ok = ok and close(si(o.t.get_at(i)), 0.5 * i * ft)
     return ok
+
+
+def mixed_array(u1, u2, u3):
+    """one array built from quantities written in DIFFERENT unit systems (and a bare number): every element keeps its physical value"""
+    k1, k2, k3 = KEYS[u1 % 11], KEYS[u2 % 11], KEYS[u3 % 11]
+    dim = (3, 0, 0)
+    tgt = Units(SYS[k3], UnitsDimensions(*dim))
+    vals = [UnitValue(2.0, Units(SYS[k1], UnitsDimensions(*dim))), UnitValue(3.0, Units(SYS[k2], UnitsDimensions(*dim))), 5.0,
+            str(UnitValue(7.0, Units(SYS[k2], UnitsDimensions(*dim)))), UnitValue(11.0, Units(SYS[k1], UnitsDimensions(*dim)))]
+    arr = UnitArray(list(vals), tgt)
+    want = [2.0 * F(k1, dim), 3.0 * F(k2, dim), 5.0 * F(k3, dim), 7.0 * F(k2, dim), 11.0 * F(k1, dim)]
+    ok = all(close(si(arr.get_at(i)), want[i]) for i in range(5))
+    # the same through a graph whose nodes carry their own units, and through sample times given as quantities
+    g = RDGraphSpace(nodes=[N(2.0, 0, SYS[k1]), N(3.0, 0, SYS[k2]), N("7 %s" % str(Units(SYS[k2], UnitsDimensions(*dim))), 0, SYS[k3]), N(5.0, 0, SYS[k3])],
+                     edges=[E(0, 1, 2.0, 3.0, SYS[k1]), E(1, 2, 5.0, 7.0, SYS[k2])], units_system=SYS[k3])
+    va = g.get_cell_vol_array()
+    ok = ok and all(close(si(va.get_at(i)), w) for i, w in enumerate([2.0 * F(k1, dim), 3.0 * F(k2, dim), 7.0 * F(k2, dim), 5.0 * F(k3, dim)]))
+    ts = RDScript(base_system(), [UnitValue(0.0, "s"), UnitValue(2.0, Units(SYS[k1], UnitsDimensions(0, 1, 0))), UnitValue(3.0e3, Units(SYS[k2], UnitsDimensions(0, 1, 0)))], units_system=SYS[k3]).t_sample
+    ok = ok and close(si(ts.get_at(1)), 2.0 * F(k1, (0, 1, 0))) and close(si(ts.get_at(2)), 3.0e3 * F(k2, (0, 1, 0)))
+    return ok
